@@ -907,6 +907,10 @@ class Interp:
         if isinstance(t, ast.Name):
             env[t.id] = v
         elif isinstance(t, (ast.Tuple, ast.List)):
+            if isinstance(v, (set, frozenset, dict, range)):
+                v = list(v)
+            if v is None or isinstance(v, (int, float, bool)):
+                raise TypeError("cannot unpack a non-iterable value")
             if not isinstance(v, (tuple, list, str, bytes)):
                 raise _Unknown("unpacking")
             v = list(v)
